@@ -23,6 +23,8 @@ use std::{collections::HashMap, fmt::Debug};
 pub const GROUPS: [&str; 2] = ["value", "tokens"];
 
 pub fn run_group(tasks: &mut Tasks, group: &str) {
+    // whatever a CBOR decoder of the library accepts must be one well-formed item (RFC 8949 App. C)
+    set_wellformed(well_formed_item);
     match group {
         "value" => values(tasks),
         "tokens" => tokens(tasks),
@@ -329,6 +331,162 @@ fn resize_bytes_nodes(v: &Value) -> Vec<(String, Value)> {
 
 /// Re-encodings of a value's own encoding that CBOR allows (indefinite lengths) and byte
 /// strings of another size: decoded as `T`, they either are rejected or mean what they say.
+/// RFC 8949 Appendix C: is `b[at..]` headed by one well-formed data item? Returns its end.
+/// `breakable`: a break stop code is acceptable here (inside an indefinite-length container).
+fn well_formed_at(b: &[u8], at: usize, breakable: bool, depth: usize) -> Option<(usize, bool)> {
+    if depth > 200 {
+        return None;
+    }
+    let ib = *b.get(at)?;
+    let (mt, ai) = (ib >> 5, ib & 0x1f);
+    let mut p = at + 1;
+    let val: u64 = match ai {
+        0..=23 => ai as u64,
+        24 => {
+            let v = *b.get(p)? as u64;
+            p += 1;
+            v
+        }
+        25 | 26 | 27 => {
+            let n = 1usize << (ai - 24);
+            let bytes = b.get(p..p + n)?;
+            p += n;
+            bytes.iter().fold(0u64, |a, x| (a << 8) | *x as u64)
+        }
+        28..=30 => return None,
+        _ => {
+            // indefinite length
+            return match mt {
+                2 | 3 => {
+                    loop {
+                        let (e, brk) = well_formed_at(b, p, true, depth + 1)?;
+                        if brk {
+                            return Some((e, false));
+                        }
+                        // chunks: definite-length strings of the same major type
+                        let cib = b[p];
+                        if cib >> 5 != mt || cib & 0x1f == 31 {
+                            return None;
+                        }
+                        p = e;
+                    }
+                }
+                4 => loop {
+                    let (e, brk) = well_formed_at(b, p, true, depth + 1)?;
+                    p = e;
+                    if brk {
+                        return Some((p, false));
+                    }
+                },
+                5 => loop {
+                    let (e, brk) = well_formed_at(b, p, true, depth + 1)?;
+                    p = e;
+                    if brk {
+                        return Some((p, false));
+                    }
+                    let (e, brk) = well_formed_at(b, p, false, depth + 1)?;
+                    let _ = brk;
+                    p = e;
+                },
+                7 => {
+                    if breakable {
+                        Some((p, true))
+                    } else {
+                        None
+                    }
+                }
+                _ => None,
+            };
+        }
+    };
+    match mt {
+        0 | 1 => Some((p, false)),
+        2 | 3 => {
+            let n = usize::try_from(val).ok()?;
+            if p.checked_add(n)? > b.len() {
+                return None;
+            }
+            Some((p + n, false))
+        }
+        4 => {
+            for _ in 0..val {
+                p = well_formed_at(b, p, false, depth + 1)?.0;
+            }
+            Some((p, false))
+        }
+        5 => {
+            for _ in 0..val.checked_mul(2)? {
+                p = well_formed_at(b, p, false, depth + 1)?.0;
+            }
+            Some((p, false))
+        }
+        6 => well_formed_at(b, p, false, depth + 1),
+        _ => {
+            // simple values: the two-byte form must not encode a value below 32
+            if ai == 24 && val < 32 {
+                return None;
+            }
+            Some((p, false))
+        }
+    }
+}
+
+/// Exactly one well-formed item and nothing else.
+pub fn well_formed_item(b: &[u8]) -> bool { matches!(well_formed_at(b, 0, false, 0), Some((e, false)) if e == b.len()) }
+
+/// Around every indefinite-length form of a value that the typed decoder accepts: each byte
+/// removed, each byte replaced by a container header / break (`9f bf 5f 7f ff 80 a0 40`), a break
+/// inserted at every offset. Whatever the typed decoder then accepts must be one well-formed CBOR
+/// item (checked by the harness through `set_wellformed`) that survives re-encoding.
+fn break_and_header_edits<T: CborSerialize + CborDeserialize + Debug + PartialEq>(ctx: &mut Ctx, name: &str, v: &T, eq: &dyn Fn(&T, &T) -> bool) {
+    let e = cbor::cbor_encode(v).unwrap();
+    let generic: Value = cbor::cbor_decode(&e).unwrap();
+    let enc = |v: &T| cbor::cbor_encode(v).expect("encodable");
+    let d = |b: &[u8]| dec::<T>(b);
+    let show = |v: &T| format!("{v:?}");
+    let c = Codec { name, enc: &enc, dec: &d, eq, show: &show, canonical: false, alloc_const: 4 << 20, alloc_factor: 64, short_inputs: false, cost: 2 };
+    for mode in [Indef::Arrays, Indef::Maps, Indef::All] {
+        let mut x = vec![];
+        enc_with(&generic, mode, &mut x);
+        if x == e || x.len() > 400 {
+            continue;
+        }
+        for at in 0..x.len() {
+            let mut y = x.clone();
+            y.remove(at);
+            probe(ctx, &c, "indefinite-length form, byte removed", &y);
+            for hb in [0x9fu8, 0xbf, 0x5f, 0x7f, 0xff, 0x80, 0xa0, 0x40] {
+                if x[at] != hb {
+                    let mut y = x.clone();
+                    y[at] = hb;
+                    probe(ctx, &c, "indefinite-length form, byte replaced by a header / break", &y);
+                }
+            }
+            let mut y = x.clone();
+            y.insert(at, 0xff);
+            probe(ctx, &c, "indefinite-length form, break inserted", &y);
+        }
+        // the same edits on the definite form with single headers turned indefinite
+        for at in 0..e.len() {
+            let (mt, ai) = (e[at] >> 5, e[at] & 0x1f);
+            if (mt == 4 || mt == 5) && ai < 24 {
+                let mut y = e.clone();
+                y[at] = (mt << 5) | 31;
+                probe(ctx, &c, "definite header turned indefinite without a break", &y);
+                let mut z = y.clone();
+                z.push(0xff);
+                probe(ctx, &c, "definite header turned indefinite, one break appended", &z);
+                // and inside an indefinite-length outer container
+                let mut w = x.clone();
+                if let Some(pos) = w.windows(1).position(|b| b[0] == e[at]) {
+                    w[pos] = (mt << 5) | 31;
+                    probe(ctx, &c, "inner header turned indefinite inside an indefinite form", &w);
+                }
+            }
+        }
+    }
+}
+
 fn encoding_deviations<T: CborSerialize + CborDeserialize + Debug + PartialEq>(ctx: &mut Ctx, name: &str, v: &T) {
     let e = cbor::cbor_encode(v).unwrap();
     let generic: Value = cbor::cbor_decode(&e).unwrap();
@@ -823,6 +981,7 @@ macro_rules! tok {
             for v in &vals {
                 field_deviations::<$ty>(ctx, stringify!($ty), v, $other, $is_enum);
                 encoding_deviations::<$ty>(ctx, stringify!($ty), v);
+                break_and_header_edits::<$ty>(ctx, stringify!($ty), v, &|a: &$ty, b: &$ty| a == b);
             }
             let eq = |a: &$ty, b: &$ty| a == b;
             sweep_cbor::<$ty>(ctx, stringify!($ty), vals, &eq, 2);
